@@ -332,28 +332,35 @@ func checkErrUsed(c *core.Ctx, l *core.Ledger, rule string, rels []string) {
 					}
 				}
 				used := false
+				// looked at: some live instruction other than a phi refers to the value, or to a phi it flows into
+				var lookedAt func(v ssa.Value, seen map[ssa.Value]bool) bool
+				lookedAt = func(v ssa.Value, seen map[ssa.Value]bool) bool {
+					if seen[v] || v.Referrers() == nil {
+						return false
+					}
+					seen[v] = true
+					for _, r := range *v.Referrers() {
+						if _, isDbg := r.(*ssa.DebugRef); isDbg || !live[r.Block()] {
+							continue
+						}
+						if ph, isPhi := r.(*ssa.Phi); isPhi {
+							if lookedAt(ph, seen) {
+								return true
+							}
+							continue
+						}
+						return true
+					}
+					return false
+				}
 				if v, isV := ins.(ssa.Value); isV {
-					refs := v.Referrers()
 					idx := sig.Results().Len() - 1
-					if refs != nil {
+					if sig.Results().Len() == 1 {
+						used = lookedAt(v, map[ssa.Value]bool{})
+					} else if refs := v.Referrers(); refs != nil {
 						for _, r := range *refs {
-							if _, isDbg := r.(*ssa.DebugRef); isDbg {
-								continue
-							}
-							if sig.Results().Len() == 1 {
-								if live[r.Block()] {
-									used = true
-								}
-								continue
-							}
-							ex, isEx := r.(*ssa.Extract)
-							if !isEx || ex.Index != idx || ex.Referrers() == nil {
-								continue
-							}
-							for _, rr := range *ex.Referrers() {
-								if _, isDbg := rr.(*ssa.DebugRef); !isDbg && live[rr.Block()] {
-									used = true
-								}
+							if ex, isEx := r.(*ssa.Extract); isEx && ex.Index == idx && lookedAt(ex, map[ssa.Value]bool{}) {
+								used = true
 							}
 						}
 					}
